@@ -59,6 +59,9 @@ def scenarios(tier, seed):
     sc.append(('so', '(so %s (record (kv #61 (int 5)) (kv #62 (boolean 1))) (record (kv #61 (int -9)) (kv #62 (boolean 0))) (record (kv #61 (int 77)) (kv #62 (boolean 1))))' % hx(
         '{"type":"record","name":"T","fields":[{"name":"a","type":"int"},{"name":"b","type":"boolean"}]}')))
     sc.append(('so', '(so %s (null) (null) (null))' % hx('"null"')))
+    # the typed single-object writer: header, then the serializer's own pieces, three messages on one sink
+    for i in range(4 if tier == 'quick' else 40):
+        sc.append(('so', '(so-typed %d %d %d)' % (i * 3 + 1, i * 5 + 2, i * 7 + 3)))
     rec = '{"type":"record","name":"SerRec","fields":[{"name":"a","type":"long"},{"name":"s","type":"string"},{"name":"l","type":{"type":"array","items":"string"}},{"name":"m","type":{"type":"map","values":"int"}},{"name":"o","type":["null","double"]}]}'
     for i in range(8 if tier == 'quick' else 80):
         r = rng.fork(2000 + i)
@@ -131,7 +134,7 @@ def evaluate(run, sc, exe, drv, tier, seed):
                 ps.append(hx(ref[pos:pos + p])); pos += p
             sp = parse(script)
             mlines.append('%s (sinkmodel (pieces %s) (script %s %s))' % (cid, ' '.join(ps), sp[1], ' '.join(show(x) for x in sp[3:])))
-        if kind == 'so' and not _multi_map(body) and body in ref_marks and sname != 'flushfail':
+        if kind == 'so' and not body.startswith('(so-typed') and not _multi_map(body) and body in ref_marks and sname != 'flushfail':
             rm = ref_marks[body]
             msgs = [ref[(rm[j - 1] if j else 0):rm[j]] for j in range(len(rm))]
             if msgs and all(len(m) >= 10 and m[:10] == msgs[0][:10] for m in msgs):
